@@ -316,13 +316,13 @@ func (e *epoch) deliver(p *peer, rep report) {
 		}
 		if sup {
 			// the node processes a ping after answering it: wait for the event, bounded
-			wait := 2 * time.Second
-			if lostReports.Load() >= 20 {
-				wait = 100 * time.Millisecond // enough 2 s witnesses exist; the rest is only counted
+			wait := 10 * time.Second
+			if lostReports.Load() >= 5 {
+				wait = 100 * time.Millisecond // enough 10 s witnesses exist; the rest is only counted
 			}
 			if !e.waitCache(p.id, rep.Radius, wait) {
-				if wait < 2*time.Second {
-					e.r.Count("reports_lost_after_20_witnesses_not_judged", 1)
+				if wait < 10*time.Second {
+					e.r.Count("reports_lost_after_5_witnesses_not_judged", 1)
 				} else if e.inTable(p.id) && p.background() == 0 {
 					lostReports.Add(1)
 					e.violate("radius-report-lost:"+label,
